@@ -58,7 +58,10 @@ TableDesc ==
       gf28_log |-> <<8, "log">>, gf28_exp |-> <<8, "exp">>, gf28_inv |-> <<8, "inv">>,
       gf28_mul |-> <<8, "mul">>,
       rs_log   |-> <<8, "log">>, rs_exp   |-> <<8, "exp">>, rs_inv   |-> <<8, "inv">>,
-      rs_mul   |-> <<8, "mul">> ]
+      rs_mul   |-> <<8, "mul">>,
+      \* the same tables after a second of_rs_init() (generation must be idempotent)
+      rs2_log  |-> <<8, "log">>, rs2_exp  |-> <<8, "exp">>, rs2_inv  |-> <<8, "inv">>,
+      rs2_mul  |-> <<8, "mul">> ]
 
 Rows(t) == LET d == TableDesc[t] IN IF d[2] = "mul" THEN Order(d[1]) ELSE IF d[2] = "opt" THEN 16 ELSE 1
 
